@@ -105,6 +105,10 @@ def make_lens(ltype, cfg, data):
     from hierarc.Likelihood.hierarchy_likelihood import LensLikelihood
     kw = dict(cfg)
     z_lens, z_source = kw.pop("z_lens"), kw.pop("z_source")
+    how = kw.pop("_ifu_flag_as", None)
+    if how is not None and kw.get("mst_ifu"):
+        # the IFU flag as a caller may write it (element of a boolean array / table column, an integer switch)
+        kw["mst_ifu"] = np.bool_(True) if how == "numpy_bool" else 1
     if ltype == "DdtDdKDE":
         lens = LensLikelihood(z_lens, z_source, likelihood_type="DdtGaussian", ddt_mean=5000, ddt_sigma=400, **kw)
         lens.likelihood_type = "DdtDdKDE"
@@ -209,6 +213,9 @@ class Recorder:
         rec = self
 
         def normal(loc=0.0, scale=1.0, size=None):
+            if len(rec.normals) > 400000:
+                # (a re-draw that never ends — the unchanged code stops at the recursion limit — is cut off, not waited for)
+                raise RuntimeError("more than 400000 normal variates requested within one recorded evaluation")
             r = orig_normal(loc, scale, size)
             rec.normals.append((float(np.squeeze(loc)), float(np.squeeze(scale)), float(np.squeeze(r))))
             return r
@@ -296,7 +303,7 @@ def encode_cfg_public(lens, ltype, cfg):
     g = cfg.get
     kmin, kmax = lens.param_bounds_interpol()
     gpi = g("gamma_pl_index", None)
-    dist = dict(lambdaSampling=g("lambda_mst_distribution", "NONE") in ["GAUSSIAN"], mstIfu=bool(g("mst_ifu", False) is True),
+    dist = dict(lambdaSampling=g("lambda_mst_distribution", "NONE") in ["GAUSSIAN"], mstIfu=bool(g("mst_ifu", False) is True and g("_ifu_flag_as") is None),
                 prop=f2b(g("lambda_scaling_property", 0)), propBeta=f2b(g("lambda_scaling_property_beta", 0)),
                 gammaInSampling=bool(g("gamma_in_sampling", False)), gammaInGauss=g("gamma_in_distribution", "NONE") in ["GAUSSIAN"],
                 logM2lSampling=bool(g("log_m2l_sampling", False)),
